@@ -8,8 +8,8 @@ that walks the `HashMap` is modelled exactly as the code does it —
 
 * `keys`, `into_iter` sort by the stored index (`sorted_by_key`, a stable sort) ⇒ `sortByIndex`;
 * `get_pair` uses `iter().find(index == i)` without sorting ⇒ `List.find?`; the answer does not depend
-  on the list order as long as stored indices are pairwise distinct (`Proofs/Container.lean`), and the
-  driver prints `amb` when they are not (reachable only through `new` with a repeated key);
+  on the list order because stored indices are pairwise distinct in every reachable container
+  (`Proofs/Container.lean`, `C11.hashmap_order_unobservable`);
 * `iter`, `indexed_iter`, `to_vec` are `get_pair 0, get_pair 1, …` until `index ≥ len` or `None`;
 * `len`, `get`, `get_index`, `contains_key`, `insert` use `HashMap::{len,get,insert}` only.
 
@@ -76,24 +76,6 @@ def dedupKeys : List K → List K
 
 /-- `unique_key_len`: size of the `HashSet` of the keys -/
 def uniqueKeyLen (ks : List K) : Nat := (dedupKeys ks).length
-
-/-- the `_` arm of `new`: enumerate, collect into a `HashMap` (a repeated key keeps the later value
-    and the later position) -/
-def newN (entries : List (K × V)) : Container K V :=
-  .n (HMap.ofList (entries.zipIdx.map (fun p => (p.1.1, ({ v := p.1.2, index := p.2 } : IndexedEntry V)))))
-
-/-- `CompactOrderedHashMap::new` (also `From<Vec<(K, V)>>`) -/
-def new (entries : List (K × V)) : Container K V :=
-  match entries with
-  | [] => empty
-  | [(k, v)] => .one k v
-  | [(k1, v1), (k2, v2)] =>
-    if uniqueKeyLen [k1, k2] = 2 then .two k1 k2 v1 v2 else newN entries
-  | [(k1, v1), (k2, v2), (k3, v3)] =>
-    if uniqueKeyLen [k1, k2, k3] = 3 then .three k1 k2 k3 v1 v2 v3 else newN entries
-  | [(k1, v1), (k2, v2), (k3, v3), (k4, v4)] =>
-    if uniqueKeyLen [k1, k2, k3, k4] = 4 then .four k1 k2 k3 k4 v1 v2 v3 v4 else newN entries
-  | _ :: _ :: _ :: _ :: _ :: _ => newN entries
 
 /-- `len` -/
 def len : Container K V → Nat
@@ -219,12 +201,20 @@ def intoIter : Container K V → List (K × IndexedEntry V)
 def fromIter (entries : List (K × V)) : Container K V :=
   entries.foldl (fun c e => (c.insert e.1 e.2).1) empty
 
-/-- number of `HashMap` entries whose stored index is `i`; `> 1` means `get_pair i` (hence `iter`)
-    depends on the `HashMap`'s iteration order.  Used by the driver only. -/
-def indexMultiplicity (c : Container K V) (i : Nat) : Nat :=
-  match c with
-  | .n m => (m.filter (fun e => e.2.index = i)).length
-  | _ => if i < c.len then 1 else 0
+/-- `CompactOrderedHashMap::new` (also `From<Vec<(K, V)>>`): zero to four entries with pairwise
+    distinct keys build the small representation directly; everything else (five or more entries, or a
+    repeated key among fewer) starts from `empty` and inserts one by one, exactly like `from_iter` -/
+def new (entries : List (K × V)) : Container K V :=
+  match entries with
+  | [] => empty
+  | [(k, v)] => .one k v
+  | [(k1, v1), (k2, v2)] =>
+    if uniqueKeyLen [k1, k2] = 2 then .two k1 k2 v1 v2 else fromIter entries
+  | [(k1, v1), (k2, v2), (k3, v3)] =>
+    if uniqueKeyLen [k1, k2, k3] = 3 then .three k1 k2 k3 v1 v2 v3 else fromIter entries
+  | [(k1, v1), (k2, v2), (k3, v3), (k4, v4)] =>
+    if uniqueKeyLen [k1, k2, k3, k4] = 4 then .four k1 k2 k3 k4 v1 v2 v3 v4 else fromIter entries
+  | _ :: _ :: _ :: _ :: _ :: _ => fromIter entries
 
 end Container
 
